@@ -5,7 +5,7 @@ from h5 import gen, lean, lexical, wire
 
 ID = "C08"
 PROPS_MODULE = "H5.Props.C08"
-EXTRA_PROPS_MODULES = ["H5.Props.C08b"]
+EXTRA_PROPS_MODULES = ["H5.Props.C08b", "H5.Props.C08cAttr", "H5.Props.C08cTag", "H5.Props.C08cMarkup", "H5.Props.C08c"]
 GEN_MODULES = ["Serializer", "Constants", "Entities"]
 CORRESPONDENCE_OPS = ["ser"]
 SOURCES = ["html5lib/serializer.py", "html5lib/constants.py", "html5lib/treewalkers/base.py"]
